@@ -23,7 +23,19 @@ package main
 // contacted" is checked over every connection fabio opens (simnet dial log,
 // all addresses - the host named in the redirect target included).
 //
-// Three modes, chosen per run:
+// Requests of one run are RELATED more often than not ("from the request
+// alone" means: not from an earlier one): a request is derived from an earlier
+// request of the run - of any client - by re-spelling what the two have in
+// common: the same decoded path in another percent-encoding (%2F vs /, %41 vs A,
+// upper/lower-case hex, reserved characters encoded or literal), the same path
+// in another letter case, another query / no query, the same host with or
+// without port and in another letter case, another X-Forwarded-Proto, or
+// nothing at all (an identical repeat). Derivations chain, so every order occurs.
+//
+// Four modes in two parts (harness c13h: sequence, event - nothing is
+// interleaved inside fabio code; harness c13: tasks, event-adopted), chosen per run:
+//   sequence       one caller issues 2-8 requests one after the other to the real
+//                  HTTPProxy.ServeHTTP, nothing is interleaved: pure history
 //   tasks          2-8 tasks call the real HTTPProxy.ServeHTTP of
 //                  main.newHTTPProxy concurrently; the driver interleaves them
 //                  at every statement of fabio code (stub RoundTripper upstream)
@@ -48,6 +60,7 @@ import (
 	"net/http"
 	"net/http/httptest"
 	"net/url"
+	"strconv"
 	"strings"
 	"sync"
 	"time"
@@ -62,7 +75,15 @@ import (
 )
 
 func init() {
-	zzHarnesses = append(zzHarnesses, &simcore.Harness{Name: "c13", Props: []string{"C13"}, Run: runC13})
+	// Two parts, explored one after the other in separate worker processes:
+	//   c13h  history: nothing is interleaved inside fabio code (modes sequence, event)
+	//   c13   interleaving: statement-level tasks (modes tasks, event-adopted)
+	// The history part comes first. It stays decidable for a change whose shared state is guarded
+	// by a lock the instrumenter does not simulate (a task parked while holding such a lock
+	// stalls the interleaving part in real time: trouble, never a verdict).
+	zzHarnesses = append(zzHarnesses,
+		&simcore.Harness{Name: "c13h", Props: []string{"C13"}, Run: func(r *simcore.Run) { runC13(r, c13HistoryModes) }},
+		&simcore.Harness{Name: "c13", Props: []string{"C13"}, Run: func(r *simcore.Run) { runC13(r, c13InterleavedModes) }})
 }
 
 // ---------------------------------------------------------------- scenario
@@ -99,6 +120,8 @@ type c13Req struct {
 	BodyLen int        `json:"body_len,omitempty"`
 	Chunked bool       `json:"chunked_body,omitempty"`
 	Chunks  []int      `json:"write_chunks,omitempty"`
+	From    string     `json:"derived_from,omitempty"` // id of the earlier request this one re-spells
+	Vary    []string   `json:"varied,omitempty"`       // what was re-spelt
 }
 
 type c13Client struct {
@@ -108,6 +131,7 @@ type c13Client struct {
 
 type c13Scenario struct {
 	Mode         string      `json:"mode"`
+	Related      bool        `json:"related_requests,omitempty"`
 	GlobDisabled bool        `json:"glob_matching_disabled,omitempty"`
 	Exact80      bool        `json:"exact_host_pattern_with_port_80,omitempty"`
 	Slots        []c13Slot   `json:"slots"`
@@ -139,7 +163,9 @@ var c13Suffixes = []string{"", "/", "/a", "/a/b", "/a%2Fb", "/x%20y", "/100%25",
 	"/%2F", "/a%2fb/c", "/a%3Fb", "/a%23b", "/a%3Bb", "/~u/-_.", "/A/b", "/a/b/",
 	// material for the strip option: the segment "/s" first, later, twice, alone
 	"/s", "/s/a", "/a/s/b", "/s/s/a", "/s/x%2Fy", "/a%2Fb/s", "/a/s"}
-var c13Queries = []string{"", "", "a=1", "a=1&a=2&b", "x=%2F%20&y=+", "q=a%26b"}
+var c13Queries = []string{"", "", "a=1", "a=1&a=2&b", "x=%2F%20&y=+", "q=a%26b",
+	// the same parameters once more: other value, other order, other encoding, other case, trailing separator
+	"a=2", "b&a=2&a=1", "x=%2f%20&y=+", "x=/%20&y=%20", "A=1", "a=1&"}
 var c13Hosts = []string{c13ExactHost, "api.example.com", "other.test", c13ExactHost + ":80", c13ExactHost + ":8080"}
 var c13XFPs = []string{"", "https", "http"}
 var c13Methods = []string{"GET", "GET", "HEAD", "POST", "DELETE", "PUT", "PATCH", "OPTIONS"}
@@ -234,10 +260,192 @@ func c13Target(rt *c13Route) string {
 	return t
 }
 
-func c13Gen(r *simcore.Run, thorough bool) *c13Scenario {
+// ---------------------------------------------------------------- related requests
+
+// c13Tok is one character of a path: its value and how it is written on the wire.
+type c13Tok struct {
+	dec byte
+	enc string
+}
+
+func c13Tokens(p string) []c13Tok {
+	var out []c13Tok
+	for i := 0; i < len(p); i++ {
+		if p[i] == '%' && i+2 < len(p) {
+			if v, err := strconv.ParseUint(p[i+1:i+3], 16, 8); err == nil {
+				out = append(out, c13Tok{byte(v), p[i : i+3]})
+				i += 2
+				continue
+			}
+		}
+		out = append(out, c13Tok{p[i], p[i : i+1]})
+	}
+	return out
+}
+
+func c13JoinToks(toks []c13Tok) string {
+	var b strings.Builder
+	for _, t := range toks {
+		b.WriteString(t.enc)
+	}
+	return b.String()
+}
+
+// c13TokForms: the other spellings of one path character: literal where the
+// character may stand for itself in a path (the harness alphabet: unreserved
+// characters, the slash and the sub-delimiters ; , + =), %XX in upper-case and
+// in lower-case hex. The simplest spelling comes first.
+func c13TokForms(t c13Tok) []string {
+	var out []string
+	add := func(s string) {
+		if s == t.enc {
+			return
+		}
+		for _, x := range out {
+			if x == s {
+				return
+			}
+		}
+		out = append(out, s)
+	}
+	c := t.dec
+	if c >= 'a' && c <= 'z' || c >= 'A' && c <= 'Z' || c >= '0' && c <= '9' || strings.IndexByte("-_.~/;,+=", c) >= 0 {
+		add(string(c))
+	}
+	add(fmt.Sprintf("%%%02X", c))
+	add(fmt.Sprintf("%%%02x", c))
+	return out
+}
+
+// c13Protected marks the characters of a request path that are never re-spelt:
+// the route path in front (the request stays on its route) and every strip
+// value of the slot that prefixes the path, together with the character after
+// it (a strip value keeps ending at a segment boundary of the escaped path and
+// contains no escapes, see the assumptions). Letter case is ignored so that a
+// change of case cannot produce such a prefix either.
+func c13Protected(prefix string, toks []c13Tok) []bool {
+	dec := make([]byte, len(toks))
+	for i, t := range toks {
+		dec[i] = t.dec
+	}
+	prot := make([]bool, len(toks))
+	mark := func(last int) {
+		for i := 0; i <= last && i < len(prot); i++ {
+			prot[i] = true
+		}
+	}
+	mark(len(prefix) - 1)
+	for _, s := range c13Strips(prefix) {
+		if s != "" && len(dec) >= len(s) && strings.EqualFold(string(dec[:len(s)]), s) {
+			mark(len(s))
+		}
+	}
+	return prot
+}
+
+// c13Reencode: the same decoded path, 1-3 characters spelt differently.
+func c13Reencode(g *simcore.Tape, prefix, path string) string {
+	toks := c13Tokens(path)
+	prot := c13Protected(prefix, toks)
+	var cand []int
+	for i, t := range toks {
+		if !prot[i] && len(c13TokForms(t)) > 0 {
+			cand = append(cand, i)
+		}
+	}
+	if len(cand) == 0 {
+		return path
+	}
+	for n := g.Range(1, 3); n > 0; n-- {
+		i := cand[g.Intn(len(cand))]
+		toks[i].enc = simcore.Pick(g, c13TokForms(toks[i]))
+	}
+	return c13JoinToks(toks)
+}
+
+// c13Recase: one letter of the path in the other case (another path that a
+// case-folding reader takes for the same).
+func c13Recase(g *simcore.Tape, prefix, path string) string {
+	toks := c13Tokens(path)
+	prot := c13Protected(prefix, toks)
+	var cand []int
+	for i, t := range toks {
+		if !prot[i] && len(t.enc) == 1 && (t.dec >= 'a' && t.dec <= 'z' || t.dec >= 'A' && t.dec <= 'Z') {
+			cand = append(cand, i)
+		}
+	}
+	if len(cand) == 0 {
+		return path
+	}
+	i := cand[g.Intn(len(cand))]
+	toks[i].dec ^= 0x20
+	toks[i].enc = string(toks[i].dec)
+	return c13JoinToks(toks)
+}
+
+// c13HostForms: the other spellings of a request host: lower case, upper case,
+// capitalised labels; without port, with the default port, with another port
+// (the last one is another host, related only to a reader that ignores ports).
+func c13HostForms(host string) []string {
+	name := host
+	if i := strings.LastIndex(host, ":"); i >= 0 {
+		name = host[:i]
+	}
+	lower := strings.ToLower(name)
+	labels := strings.Split(lower, ".")
+	for i, l := range labels {
+		if l != "" {
+			labels[i] = strings.ToUpper(l[:1]) + l[1:]
+		}
+	}
+	var out []string
+	for _, n := range []string{lower, strings.ToUpper(lower), strings.Join(labels, ".")} {
+		for _, p := range []string{"", ":80", ":8080"} {
+			if n+p != host {
+				out = append(out, n+p)
+			}
+		}
+	}
+	return out
+}
+
+var c13Variations = []string{"repeat", "path-encoding", "query", "host", "path-encoding", "x-forwarded-proto", "query", "path-case", "host"}
+
+// c13Derive turns rq (a copy of an earlier request's slot, host, path, query and
+// X-Forwarded-Proto) into a request related to it.
+func c13Derive(g *simcore.Tape, sc *c13Scenario, rq *c13Req) {
+	prefix := sc.Slots[rq.Slot].Prefix
+	n := 1
+	if g.Chance(30) {
+		n = 2
+	}
+	for ; n > 0; n-- {
+		v := simcore.Pick(g, c13Variations)
+		switch v {
+		case "path-encoding":
+			rq.Path = c13Reencode(g, prefix, rq.Path)
+		case "path-case":
+			rq.Path = c13Recase(g, prefix, rq.Path)
+		case "query":
+			rq.Query = simcore.Pick(g, c13Queries)
+		case "host":
+			rq.Host = simcore.Pick(g, c13HostForms(rq.Host))
+		case "x-forwarded-proto":
+			rq.XFP = simcore.Pick(g, c13XFPs)
+		}
+		rq.Vary = append(rq.Vary, v)
+	}
+}
+
+// the simplest mode of a part comes first (shrinking drives towards it)
+var c13HistoryModes = []string{"sequence", "event"}
+var c13InterleavedModes = []string{"tasks", "event-adopted"}
+
+func c13Gen(r *simcore.Run, thorough bool, modes []string) *c13Scenario {
 	g := r.Gen
 	sc := &c13Scenario{}
-	sc.Mode = simcore.Pick(g, []string{"tasks", "event", "event-adopted"})
+	sc.Mode = simcore.Pick(g, modes)
+	sc.Related = g.Chance(70)
 	sc.GlobDisabled = g.Chance(15)
 	sc.Exact80 = g.Chance(25)
 	ns := g.Range(1, 3)
@@ -311,31 +519,55 @@ func c13Gen(r *simcore.Run, thorough bool) *c13Scenario {
 	if thorough {
 		nc = g.Range(2, 8)
 	}
-	if sc.Mode == "event" {
+	switch sc.Mode {
+	case "event":
 		nc = g.Range(1, 3)
+	case "sequence":
+		nc = 1
 	}
 	id := 0
+	var hist []c13Req // the requests generated so far, in the order of generation
 	for c := 0; c < nc; c++ {
 		cl := c13Client{Addr: fmt.Sprintf("192.0.2.%d:%d", 10+c, 5000+100*c)}
 		n := g.Range(1, 3)
+		if sc.Related {
+			n = g.Range(1, 5)
+		}
+		if sc.Mode == "sequence" {
+			n = g.Range(2, 8)
+			if thorough {
+				n = g.Range(2, 16)
+			}
+		}
 		for k := 0; k < n; k++ {
 			rq := c13Req{ID: fmt.Sprintf("r%d", id)}
 			id++
-			rq.Slot = g.Intn(ns)
 			rq.Method = simcore.Pick(g, c13Methods)
-			rq.Host = simcore.Pick(g, c13Hosts)
-			prefix := sc.Slots[rq.Slot].Prefix
-			suffixes := c13Suffixes
-			if prefix != "/" {
-				// the route path once more further right: a strip value equal to it occurs twice
-				suffixes = append(append([]string{}, c13Suffixes...), prefix+"/x", "/x"+prefix, prefix)
+			if sc.Related && len(hist) > 0 && g.Chance(70) {
+				// a request related to an earlier one (of any client): same route, and host, path, query
+				// and X-Forwarded-Proto equal up to what c13Derive re-spells
+				src := hist[len(hist)-1-g.Intn(len(hist))]
+				rq.Slot, rq.Host, rq.Path, rq.Query, rq.XFP, rq.From = src.Slot, src.Host, src.Path, src.Query, src.XFP, src.ID
+				c13Derive(g, sc, &rq)
+			} else {
+				rq.Slot = g.Intn(ns)
+				rq.Host = simcore.Pick(g, c13Hosts)
+				prefix := sc.Slots[rq.Slot].Prefix
+				suffixes := c13Suffixes
+				if prefix != "/" {
+					// the route path once more further right: a strip value equal to it occurs twice
+					suffixes = append(append([]string{}, c13Suffixes...), prefix+"/x", "/x"+prefix, prefix)
+				}
+				rq.Path = c13JoinPath(prefix, simcore.Pick(g, suffixes))
+				rq.Query = simcore.Pick(g, c13Queries)
+				rq.XFP = simcore.Pick(g, c13XFPs)
 			}
-			rq.Path = c13JoinPath(prefix, simcore.Pick(g, suffixes))
-			rq.Query = simcore.Pick(g, c13Queries)
-			rq.XFP = simcore.Pick(g, c13XFPs)
+			hist = append(hist, rq)
 			onlyRedirects := true
-			for _, c := range c13Candidates(sc, &rq) {
-				onlyRedirects = onlyRedirects && c.Kind == "redirect"
+			for _, fold := range []bool{true, false} {
+				for _, c := range c13Candidates(sc, &rq, fold) {
+					onlyRedirects = onlyRedirects && c.Kind == "redirect"
+				}
 			}
 			for n := []int{0, 1, 0, 1, 2}[g.Intn(5)]; n > 0; n-- {
 				grp := simcore.Pick(g, c13Extras)
@@ -367,7 +599,7 @@ func c13Gen(r *simcore.Run, thorough bool) *c13Scenario {
 				rq.Chunks = []int{1 + g.Intn(20), 1 + g.Intn(20), 1 + g.Intn(20)}
 			}
 			cl.Reqs = append(cl.Reqs, rq)
-			if c13IsWS(rq.Extra) {
+			if c13IsWS(rq.Extra) && sc.Mode != "sequence" {
 				break // a connection that asked for an upgrade is not used for further requests
 			}
 		}
@@ -417,9 +649,14 @@ func (o c13Outcome) String() string {
 
 // c13HostMatches: does a route on this host level apply to a request for host
 // arriving on a plain HTTP listener. The exact pattern is the HTTP endpoint
-// www.example.com[:80]; the glob covers one more label.
-func c13HostMatches(level, host string) bool {
+// www.example.com[:80]; the glob covers one more label. Host names are
+// case-insensitive, the statement does not say whether "matching" is: fold
+// selects the reading (a lower-case host reads the same both ways).
+func c13HostMatches(level, host string, fold bool) bool {
 	h := strings.TrimSuffix(host, ":80")
+	if fold {
+		h = strings.ToLower(h)
+	}
 	switch level {
 	case "exact":
 		return h == c13ExactHost
@@ -429,12 +666,12 @@ func c13HostMatches(level, host string) bool {
 	return true
 }
 
-func c13Candidates(sc *c13Scenario, rq *c13Req) []*c13Route {
+func c13Candidates(sc *c13Scenario, rq *c13Req, fold bool) []*c13Route {
 	var out []*c13Route
 	sl := &sc.Slots[rq.Slot]
 	for _, lv := range []string{"exact", "glob", "none"} {
 		for i := range sl.Routes {
-			if sl.Routes[i].Level == lv && c13HostMatches(lv, rq.Host) {
+			if sl.Routes[i].Level == lv && c13HostMatches(lv, rq.Host, fold) {
 				out = append(out, &sl.Routes[i])
 			}
 		}
@@ -448,7 +685,8 @@ type c13Variant struct {
 
 // c13Expand lists every Location the statement admits for rq on route rt:
 // $path = the request's escaped path after strip and prepend, $host = the
-// request host, the request's query iff the target has none.
+// request host (as sent; for a host sent with upper-case letters also its
+// lower-case form), the request's query iff the target has none.
 // Where the text leaves room, all readings are admitted:
 //   - ".../$path" joins with one slash (documented by fabio's examples) or literally
 //   - an empty $path (everything stripped) may also be written "/"
@@ -464,7 +702,10 @@ func c13Expand(rt *c13Route, rq *c13Req) []c13Variant {
 	if p == "" {
 		ps = []string{"", "/"}
 	}
-	host := strings.Replace(rt.THost, "$host", rq.Host, 1)
+	hosts := []string{strings.Replace(rt.THost, "$host", rq.Host, 1)}
+	if lh := strings.ToLower(rq.Host); lh != rq.Host && strings.Contains(rt.THost, "$host") {
+		hosts = append(hosts, strings.Replace(rt.THost, "$host", lh, 1))
+	}
 	var paths []string
 	add := func(s string) {
 		for _, x := range paths {
@@ -506,9 +747,11 @@ func c13Expand(rt *c13Route, rq *c13Req) []c13Variant {
 		queries = []string{"", rq.Query}
 	}
 	var out []c13Variant
-	for _, pp := range paths {
-		for _, q := range queries {
-			out = append(out, c13Variant{Host: host, Path: pp, Query: q})
+	for _, host := range hosts {
+		for _, pp := range paths {
+			for _, q := range queries {
+				out = append(out, c13Variant{Host: host, Path: pp, Query: q})
+			}
 		}
 	}
 	return out
@@ -527,7 +770,8 @@ func (v c13Variant) location(scheme string) string {
 // Scheme: settled only through X-Forwarded-Proto (DESIGN, readings fixed in
 // advance); where the connection's scheme (always http here) and the header
 // disagree or the header is absent, and one of them equals the target scheme, it
-// is left open. Host: equal as sent; differing only by the default port is left open.
+// is left open. Host: equal as sent; differing only by the default port or only in
+// letter case is left open.
 // Path: equal as written on the wire; equal only after percent-decoding is left open.
 func c13Self(rt *c13Route, rq *c13Req, v c13Variant) int {
 	res := 1
@@ -540,7 +784,9 @@ func c13Self(rt *c13Route, rq *c13Req, v c13Variant) int {
 	}
 	switch {
 	case v.Host == rq.Host:
-	case rt.Scheme == "http" && strings.TrimSuffix(v.Host, ":80") == strings.TrimSuffix(rq.Host, ":80"):
+	case strings.EqualFold(v.Host, rq.Host):
+		res = -1
+	case rt.Scheme == "http" && strings.EqualFold(strings.TrimSuffix(v.Host, ":80"), strings.TrimSuffix(rq.Host, ":80")):
 		res = -1
 	default:
 		return 0
@@ -606,9 +852,26 @@ func c13ExpectChain(cands []*c13Route, rq *c13Req, depth int, ex *c13Expectation
 	return out
 }
 
+// c13Expect: what the statement admits for rq. A host sent with upper-case
+// letters is judged under both readings of "matching" (case-insensitive and as
+// sent): an answer that either reading admits is admitted.
 func c13Expect(sc *c13Scenario, rq *c13Req) *c13Expectation {
+	ex := c13ExpectReading(sc, rq, true)
+	if strings.ToLower(rq.Host) != rq.Host {
+		o := c13ExpectReading(sc, rq, false)
+		ex.Acc = append(ex.Acc, o.Acc...)
+		ex.SkipDemanded = ex.SkipDemanded && o.SkipDemanded
+		ex.SelfLocs = append(ex.SelfLocs, o.SelfLocs...)
+		ex.MustSkip = append(ex.MustSkip, o.MustSkip...)
+		ex.Later = append(ex.Later, o.Later...)
+		ex.Redirect = ex.Redirect || o.Redirect
+	}
+	return ex
+}
+
+func c13ExpectReading(sc *c13Scenario, rq *c13Req, fold bool) *c13Expectation {
 	ex := &c13Expectation{}
-	cands := c13Candidates(sc, rq)
+	cands := c13Candidates(sc, rq, fold)
 	ex.Acc = c13ExpectChain(cands, rq, 0, ex)
 	if len(cands) > 0 && cands[0].Kind == "redirect" {
 		ex.Redirect = true
@@ -723,7 +986,11 @@ func c13Judge(r *simcore.Run, rq *c13Req, got c13Outcome, upstreamSaw string, ex
 		}
 		for _, a := range ex.Acc {
 			if a.Kind == "redirect" && c13Unescape(a.Loc) == c13Unescape(got.Loc) {
-				r.Fail("location", "path-encoding/"+a.rt.Form, "%s via target %s: Location %s does not keep the request's percent-encoding; admitted: %s", what, c13Target(a.rt), got.Loc, admitted)
+				note := ""
+				if others[got.Loc] {
+					note = " (it is the Location of another request of this run)"
+				}
+				r.Fail("location", "path-encoding/"+a.rt.Form, "%s via target %s: Location %s does not keep the request's percent-encoding%s; admitted: %s", what, c13Target(a.rt), got.Loc, note, admitted)
 				return
 			}
 		}
@@ -817,8 +1084,8 @@ func c13Observed(status int, loc string, up string, noRoute int) c13Outcome {
 	return c13Outcome{Kind: "other", Code: status, Loc: loc}
 }
 
-func runC13(r *simcore.Run) {
-	sc := c13Gen(r, r.Thorough())
+func runC13(r *simcore.Run, modes []string) {
+	sc := c13Gen(r, r.Thorough(), modes)
 	r.SetSample(sc)
 	table := c13Table(sc)
 	if _, err := route.NewTable(bytes.NewBufferString(table)); err != nil {
@@ -863,6 +1130,34 @@ func runC13(r *simcore.Run) {
 			}
 		}
 	}
+	// pairs of related requests on one redirect route (coverage of "from the request alone")
+	hostName := func(h string) string {
+		if i := strings.LastIndex(h, ":"); i >= 0 {
+			h = h[:i]
+		}
+		return strings.ToLower(h)
+	}
+	for i, p := range order {
+		for _, q := range order[i+1:] {
+			if p.Slot != q.Slot || !expect[p.ID].Redirect || !expect[q.ID].Redirect {
+				continue
+			}
+			switch {
+			case p.Host == q.Host && p.Path == q.Path && p.Query == q.Query && p.XFP == q.XFP:
+				r.Probe("pair_identical_requests")
+			case p.Host == q.Host && p.Path == q.Path && p.Query == q.Query:
+				r.Probe("pair_differs_in_forwarded_proto_only")
+			case p.Host == q.Host && p.Query == q.Query && p.Path != q.Path && c13Unescape(p.Path) == c13Unescape(q.Path):
+				r.Probe("pair_same_decoded_path_other_encoding")
+			case p.Host == q.Host && p.Query == q.Query && strings.EqualFold(c13Unescape(p.Path), c13Unescape(q.Path)):
+				r.Probe("pair_same_path_other_letter_case")
+			case p.Host == q.Host && p.Path == q.Path:
+				r.Probe("pair_same_path_other_query")
+			case p.Path == q.Path && p.Query == q.Query && hostName(p.Host) == hostName(q.Host):
+				r.Probe("pair_same_host_other_spelling")
+			}
+		}
+	}
 	// Locations admitted for the other requests (to name cross-talk when it happens)
 	othersOf := func(id string) map[string]bool {
 		own := map[string]bool{}
@@ -887,7 +1182,7 @@ func runC13(r *simcore.Run) {
 	defer e.finish()
 	e.d.Stick = sc.Stick
 	concurrent := 0
-	if sc.Mode != "event" {
+	if sc.Mode != "event" && sc.Mode != "sequence" {
 		e.d.Sim.Activate("route", "proxy", "main")
 		e.d.Invariant = func() {
 			if e.d.Sim.InFunc("route", "Table.Lookup")+e.d.Sim.InFunc("route", "*Target.BuildRedirectURL")+e.d.Sim.InFunc("route", "Table.lookup")+e.d.Sim.InFunc("route", "Table.matchingHost") >= 2 {
@@ -900,7 +1195,8 @@ func runC13(r *simcore.Run) {
 	sawUp := map[string]string{}
 
 	switch sc.Mode {
-	case "tasks":
+	case "tasks", "sequence":
+		// sequence: the one caller runs through without a single yield site being live
 		stub := &c13Stub{}
 		e.proxy.Transport = stub
 		e.proxy.InsecureTransport = stub
@@ -997,8 +1293,10 @@ func runC13(r *simcore.Run) {
 	// may answer (in tasks mode the transport is a stub, so there nothing is dialled at all).
 	proxyable := map[string]int{}
 	for _, rq := range order {
+		counted := map[string]bool{}
 		for _, a := range expect[rq.ID].Acc {
-			if a.Kind == "proxy" || a.Kind == "any" {
+			if (a.Kind == "proxy" || a.Kind == "any") && !counted[a.rt.Up] {
+				counted[a.rt.Up] = true
 				proxyable[a.rt.Up]++
 			}
 		}
